@@ -13,6 +13,7 @@ package nocchk
 
 import (
 	"fmt"
+	"io"
 
 	"github.com/sarchlab/akita/v5/hooking"
 	"github.com/sarchlab/akita/v5/messaging"
@@ -24,6 +25,7 @@ import (
 	"github.com/sarchlab/akita/v5/noc/networking/pcie"
 	"github.com/sarchlab/akita/v5/noc/networking/switching/endpoint"
 	"github.com/sarchlab/akita/v5/noc/networking/switching/switches"
+	"github.com/sarchlab/akita/v5/simulation"
 	"github.com/sarchlab/akita/v5/timing"
 	"pgregory.net/rapid"
 
@@ -34,7 +36,10 @@ import (
 // Capturing registrar
 // ---------------------------------------------------------------------------
 
-// capReg is a modeling.Registrar that keeps what it is handed.
+// capReg is a modeling.Registrar that keeps what it is handed. With sim set
+// it also forwards every registration to a real simulation.Simulation (whose
+// engine it then uses), so that the network becomes part of that simulation's
+// checkpoint inventory.
 type capReg struct {
 	engine    *timing.SerialEngine
 	switches  []*switches.Comp
@@ -42,13 +47,40 @@ type capReg struct {
 	conns     []naming.Named
 	ports     []messaging.Port
 	others    []naming.Named
+
+	sim *simulation.Simulation
+	// plain: components are handed to the simulation behind a wrapper that
+	// exposes only Name/SaveCheckpoint/LoadCheckpoint, so the simulation does
+	// not attach its (idle) DBTracer hook to them.
+	plain bool
 }
 
 func newCapReg() *capReg {
 	return &capReg{engine: timing.NewSerialEngine()}
 }
 
+// newSimReg wraps a simulation (serial engine).
+func newSimReg(sim *simulation.Simulation, plain bool) *capReg {
+	return &capReg{engine: sim.GetEngine().(*timing.SerialEngine), sim: sim, plain: plain}
+}
+
 func (r *capReg) GetEngine() timing.Engine { return r.engine }
+
+type checkpointable interface {
+	SaveCheckpoint(w io.Writer) error
+	LoadCheckpoint(r io.Reader) error
+}
+
+// plainEntity exposes only the name and the checkpoint methods of a component.
+type plainEntity struct{ inner naming.Named }
+
+func (p plainEntity) Name() string { return p.inner.Name() }
+func (p plainEntity) SaveCheckpoint(w io.Writer) error {
+	return p.inner.(checkpointable).SaveCheckpoint(w)
+}
+func (p plainEntity) LoadCheckpoint(rd io.Reader) error {
+	return p.inner.(checkpointable).LoadCheckpoint(rd)
+}
 
 func (r *capReg) RegisterComponent(c naming.Named) {
 	switch v := c.(type) {
@@ -59,13 +91,35 @@ func (r *capReg) RegisterComponent(c naming.Named) {
 	default:
 		r.others = append(r.others, c)
 	}
+	if r.sim != nil {
+		if _, ok := c.(checkpointable); ok && r.plain {
+			r.sim.RegisterComponent(plainEntity{inner: c})
+		} else {
+			r.sim.RegisterComponent(c)
+		}
+	}
 }
 
-func (r *capReg) RegisterConnection(c naming.Named) { r.conns = append(r.conns, c) }
-func (r *capReg) RegisterResource(c naming.Named)   { r.others = append(r.others, c) }
+func (r *capReg) RegisterConnection(c naming.Named) {
+	r.conns = append(r.conns, c)
+	if r.sim != nil {
+		r.sim.RegisterConnection(c)
+	}
+}
+
+func (r *capReg) RegisterResource(c naming.Named) {
+	r.others = append(r.others, c)
+	if r.sim != nil {
+		r.sim.RegisterResource(c)
+	}
+}
+
 func (r *capReg) RegisterPort(p naming.Named) {
 	if port, ok := p.(messaging.Port); ok {
 		r.ports = append(r.ports, port)
+	}
+	if r.sim != nil {
+		r.sim.RegisterPort(p)
 	}
 }
 
@@ -108,40 +162,77 @@ type agentSpec struct {
 	FreqMHz     int `json:"freq_mhz"`      // 0 = the network's clock
 }
 
-// agent is a scripted device: it sends its queue in order (head-of-line
-// blocking on a full port, like the acceptance Agent) and drains its ports
-// according to the stall plan. It keeps ticking while anything is waiting in
-// one of its ports, so a stall always ends.
-type agent struct {
-	*modeling.TickingComponent
-	spec     agentSpec
-	ports    []messaging.Port
-	queue    []trafficMsg
-	ticks    int
-	blocked  int // ticks on which the head of the queue could not be sent
-	received int
+// agentState is the whole mutable state of a device: plain JSON data, so the
+// device is checkpointable like a library component (modeling.Component saves
+// and restores exactly this struct plus its tick-scheduler guard). The script
+// is part of the state; a device resumed from a checkpoint continues at Next.
+type agentState struct {
+	Script   []messaging.MsgMeta `json:"script"`
+	Next     int                 `json:"next"`     // Script[Next:] is still to be sent
+	Ticks    int                 `json:"ticks"`    // ticks handled so far
+	Blocked  int                 `json:"blocked"`  // ticks on which the head of the script could not be sent
+	Received int                 `json:"received"` // messages retrieved from the ports
 }
 
+// agent is a scripted device: it sends its script in order (head-of-line
+// blocking on a full port, like the acceptance Agent) and drains its ports
+// according to the stall plan. It keeps ticking while anything is waiting in
+// one of its ports, so a stall always ends. It has no runtime field besides
+// State (ports and spec are rebuilt by setup).
+type agent struct {
+	*modeling.Component[agentSpec, agentState, modeling.None]
+	spec  agentSpec
+	ports []messaging.Port
+}
+
+var _ = func() bool { messaging.RegisterMsg(trafficMsg{}); return true }()
+
+// newAgent builds a device on a bare engine (its ports are not registered
+// anywhere).
 func newAgent(engine timing.Engine, name string, sp agentSpec, netFreq timing.Freq) *agent {
+	return buildAgent(modeling.NewStandaloneRegistrar(engine), name, sp, netFreq)
+}
+
+// buildAgent builds a device and registers it and its ports with reg (a no-op
+// for the capturing registrar without a simulation behind it).
+func buildAgent(reg modeling.Registrar, name string, sp agentSpec, netFreq timing.Freq) *agent {
 	a := &agent{spec: sp}
 	f := netFreq
 	if sp.FreqMHz > 0 {
 		f = timing.Freq(sp.FreqMHz) * timing.MHz
 	}
-	a.TickingComponent = modeling.NewTickingComponent(name, engine, f, a)
+	a.Component = modeling.NewBuilder[agentSpec, agentState, modeling.None]().
+		WithEngine(reg.GetEngine()).WithFreq(f).WithSpec(sp).Build(name)
+	a.AddMiddleware(&agentMW{a: a})
+	if cr, isCap := reg.(*capReg); !isCap || cr.sim != nil {
+		reg.RegisterComponent(a)
+	}
 	for j := 0; j < sp.NPorts; j++ {
 		p := messaging.NewPort(a, sp.BufSize, sp.BufSize, fmt.Sprintf("%s.Port[%d]", name, j))
 		a.ports = append(a.ports, p)
+		if cr, isCap := reg.(*capReg); !isCap || cr.sim != nil {
+			reg.RegisterPort(p)
+		}
 	}
 	return a
 }
 
-func (a *agent) Tick() bool {
-	progress := false
-	a.ticks++
+// push appends a message to the device's script.
+func (a *agent) push(m messaging.MsgMeta) { a.State.Script = append(a.State.Script, m) }
 
-	for k := 0; k < a.spec.SendPerTick && len(a.queue) > 0; k++ {
-		m := a.queue[0]
+// unsent: messages of the script that were not handed to a port yet.
+func (a *agent) unsent() int { return len(a.State.Script) - a.State.Next }
+
+type agentMW struct{ a *agent }
+
+func (mw *agentMW) Tick() bool {
+	a := mw.a
+	st := &a.State
+	progress := false
+	st.Ticks++
+
+	for k := 0; k < a.spec.SendPerTick && st.Next < len(st.Script); k++ {
+		m := st.Script[st.Next]
 		var src messaging.Port
 		for _, p := range a.ports {
 			if p.AsRemote() == m.Src {
@@ -149,16 +240,16 @@ func (a *agent) Tick() bool {
 			}
 		}
 		if !src.CanSend() {
-			a.blocked++
+			st.Blocked++
 			break
 		}
-		src.Send(m)
-		a.queue = a.queue[1:]
+		src.Send(trafficMsg{MsgMeta: m})
+		st.Next++
 		progress = true
 	}
 
-	draining := a.ticks > a.spec.InitStall &&
-		(a.spec.DrainPeriod <= 1 || a.ticks%a.spec.DrainPeriod == 0)
+	draining := st.Ticks > a.spec.InitStall &&
+		(a.spec.DrainPeriod <= 1 || st.Ticks%a.spec.DrainPeriod == 0)
 	pending := false
 	for _, p := range a.ports {
 		if draining {
@@ -166,7 +257,7 @@ func (a *agent) Tick() bool {
 				if p.RetrieveIncoming() == nil {
 					break
 				}
-				a.received++
+				st.Received++
 				progress = true
 			}
 		}
@@ -493,7 +584,7 @@ func (h *connHolder) build(name string, tp topoSpec) *built {
 	sw0, ep0 := len(h.reg.switches), len(h.reg.endpoints)
 	ports := make([][]messaging.Port, len(tp.Devs))
 	for i, d := range tp.Devs {
-		a := newAgent(h.reg.engine, fmt.Sprintf("%sDev[%d]", name, i), d.Agent, h.freq)
+		a := buildAgent(h.reg, fmt.Sprintf("%sDev[%d]", name, i), d.Agent, h.freq)
 		b.agents = append(b.agents, a)
 		ports[i] = a.ports
 	}
